@@ -87,6 +87,109 @@ def real_codes(argvs, names, nworkers=14):
     return out, detail
 
 
+# ---------------------------------------------------------------------------
+# whole command lines (NmfuArgv.tla)
+ARGV_ALPHABET = ["in.nmfu", "9a-b.x.nmfu", "", "-", "--", "-O2", "-O0", "-O", "-Ox", "-O4", "-ofoo", "-oa.b", "-fyield-support", "-fno-indirect-start-ptr",
+                 "-fhook-per-state", "-fhook-global", "-fbogus", "-f", "-t", "-tx", "-ddfa", "-dast,dfa", "-dnope", "-d", "-q", "-h", "--flag",
+                 "yield-support=no", "hook-global", "bogus=yes", "a=b=c", "--output", "foo", "--dry-run", "--dump", "--dump-prefix",
+                 "--collapsed-range-length", "7", "many", "--nonsense", "--help", "--version"]
+ARGV_SMALL = ["in.nmfu", "", "-O2", "-ofoo", "-fyield-support", "-fno-indirect-start-ptr", "-fhook-per-state", "-fhook-global", "-t", "-ddfa", "-q",
+              "--flag", "yield-support=no", "hook-global", "--output", "foo", "--dry-run", "--dump-prefix", "--collapsed-range-length", "7", "--help", "-fbogus"]
+ALL16 = REL + ["SIMPLIFY_ELSE_CONDITIONS", "REMOVE_INACCESIBLE_STATES", "COLLAPSE_TRANSITION_RANGES", "USE_DELETE_FOR_EMPTY_STRING", "SHORTCIRCUIT_FALLTHROUGHS"]
+
+
+def _lex_value(txt):
+    """lexical facts about a string taken as an option value (the harness's own reading of docs/user-ref/cli.md)"""
+    from tlagen import tla
+    isint = bool(re.fullmatch(r'-?[0-9]+', txt))
+    no = txt.startswith('no-')
+    fshort = (txt[3:] if no else txt).upper().replace('-', '_')
+    parts = txt.split('=')
+    return {'txt': txt, 'int': {'ok': isint, 'n': int(txt) if isint else 0}, 'dot': '.' in txt,
+            'fshort': {'name': fshort, 'val': not no},
+            'flong': {'ok': len(parts) <= 2, 'name': parts[0].upper().replace('-', '_'), 'val': (parts[1] in ('yes', 'on')) if len(parts) == 2 else True},
+            'dumps': {'ok': True, 'kinds': txt.split(',')}}
+
+
+def _stem(txt):
+    import string as _s
+    base = txt.rsplit('/', 1)[-1]
+    stem = base.rsplit('.', 1)[0] if '.' in base[1:] else base
+    return ''.join(ch if (ch in _s.ascii_letters or ch == '_' or (i > 0 and ch in _s.digits)) else '_' for i, ch in enumerate(stem))
+
+
+def argv_data(alphabet, k):
+    from tlagen import tla
+    values = ['']
+    def vidx(t):
+        if t not in values:
+            values.append(t)
+        return values.index(t) + 1
+    alpha = []
+    for sx in alphabet:
+        rec = {'cls': 'empty', 'o': '', 'stem': '', 'v': 1, 'self': vidx(sx)}
+        if sx == '':
+            pass
+        elif sx[0] != '-':
+            rec.update(cls='pos', stem=_stem(sx))
+        elif sx == '-':
+            rec.update(cls='dash')
+        elif sx[1] == '-':
+            rec.update(cls='long', o=sx[2:])
+        else:
+            rec.update(cls='short', o=sx[1], v=vidx(sx[2:]))
+        alpha.append(rec)
+    return ('---- MODULE ArgvData ----\nAlphabet == %s\nValues == %s\nK == %d\n====\n' % (tla(alpha), tla([_lex_value(v) for v in values]), k))
+
+
+def argv_stage(chk, alphabet, k, stride, offset, label):
+    """TLC enumerates every command line of length k over the alphabet (NmfuArgv.tla) and prints the prescribed outcome; the real
+    load_commandline_flags is run on the same lines."""
+    na = len(alphabet)
+    total = na ** k
+    cfg = ('SPECIFICATION Spec\nCONSTANTS Lo = %d\n Hi = %d\n Stride = %d\n Which = "rel"\nINVARIANT InvOrderArgv\nINVARIANT InvEmitArgv\nCHECK_DEADLOCK FALSE\n'
+           % (offset % stride, total - 1, stride))
+    res = tlc.run_tlc('NmfuArgv', cfg, {'ArgvData': argv_data(alphabet, k)}, workers=16, timeout=3000, heap='6g')
+    if not res.ok:
+        chk.machinery_error('TLC on NmfuArgv (%s): %s' % (label, res.error or res.stdout[-1500:]))
+        return 0, 0
+    exp = {r['n']: (r['o']['c'] if r['o']['k'] == 'cfg' else r['o']['k']) for r in res.reports if 'n' in r}
+    ns = sorted(exp)
+
+    def argv_of(m):
+        return [alphabet[(m // na ** (k - 1 - i)) % na] for i in range(k)]
+    argvs = [argv_of(m) for m in ns]
+    jobs = []
+    B = 3000
+    for i in range(0, len(argvs), B):
+        jobs.append({'id': i, 'cmd': 'argv_batch', 'argvs': argvs[i:i + B], 'names': ALL16})
+    out = compiler.run_jobs(jobs, nworkers=14, timeout=600)
+    bad = 0
+    seen = set()
+    for i in range(0, len(argvs), B):
+        for j, got in enumerate(out[i]['results']):
+            m = ns[i + j]
+            want = exp[m]
+            if got != want:
+                bad += 1
+                # one report per kind of difference
+                if isinstance(got, list) and isinstance(want, list):
+                    key = ('cfg',) + tuple(x for x in range(len(want)) if got[x] != want[x])
+                else:
+                    key = (str(got)[:12] if not isinstance(got, list) else 'cfg', str(want) if not isinstance(want, list) else 'cfg')
+                if key in seen:
+                    continue
+                seen.add(key)
+                names = ['input', 'output name', 'dry run', 'dump kinds', 'dump prefix', 'collapsed range length', 'flags']
+                if isinstance(got, list) and isinstance(want, list):
+                    diff = '; '.join('%s is %r, prescribed %r' % (names[x], got[x], want[x]) for x in range(len(want)) if got[x] != want[x])
+                else:
+                    diff = 'outcome is %s, prescribed %s' % ({'E': 'a diagnosed error', 'X': 'exit (help / version)'}.get(got, got) if not isinstance(got, list) else 'a configuration %r' % got,
+                                                            {'E': 'a diagnosed error', 'X': 'exit (help / version)'}.get(want, want) if not isinstance(want, list) else 'the configuration %r' % want)
+                chk.violation('command line %r: %s' % (argvs[i + j], diff), {'argv': argvs[i + j], 'got': got, 'prescribed': want, 'case': m, 'alphabet': label})
+    return len(ns), res.distinct
+
+
 def run(tier, seed):
     chk = Check('C19', tier, seed, 'model_checking')
     rng = random.Random(seed * 7919 + 19)
@@ -136,7 +239,14 @@ def run(tier, seed):
             chk.violation('malformed command line %s is %s instead of being reported as an error'
                           % (argv, 'accepted' if c >= 0 else ('exits' if c == -3 else 'an internal exception (%s)' % detail.get(MALFORMED.index(argv), ''))),
                           {'argv': argv, 'got': c}, 'malformed:' + ' '.join(argv))
+    # whole command lines: every sequence of three argv strings over the full alphabet, of four over the reduced one
+    n3, st3 = argv_stage(chk, ARGV_ALPHABET, 3, 3 if quick else 1, seed, 'full alphabet, length 3')
+    n4, st4 = argv_stage(chk, ARGV_SMALL, 4, 9 if quick else 1, seed, 'reduced alphabet, length 4')
+    ncmp += n3 + n4
+    states += st3 + st4
     chk.coverage = {
+        'command_lines_token_level': {'length_3_over_%d_strings' % len(ARGV_ALPHABET): n3, 'length_4_over_%d_strings' % len(ARGV_SMALL): n4,
+                                      'rule': 'NmfuArgv.tla: every sequence of argv strings (options in short / long form with good and bad values, positional names, empty strings, help) - outcome class and the whole configuration compared'},
         'states': states, 'transitions': res.generated + res2.generated, 'traces_validated_against_impl': ncmp,
         'samples': samples + [{'malformed': MALFORMED[3]}],
         'cases_related_flags': len(exp), 'cases_optimisation_flags': len(exp2), 'total_related_cases': total_rel,
